@@ -432,6 +432,42 @@ static void check_timeseries(void)
             FAIL(rule, "after sorting by value the (value, time, weight) triples are not the original ones");
             goto out;
         }
+        /* a series sorted by value is still the same series: copy, median and quartiles must not care */
+        {
+            struct cmb_timeseries cp = { 0 };
+            cmb_timeseries_copy(&cp, &ts);
+            bool same = cp.ds.count == (uint64_t)n;
+            for (int i = 0; same && i < n; i++) {
+                same = cp.ds.xa[i] == ts.ds.xa[i] && cp.ta[i] == ts.ta[i] && cp.wa[i] == ts.wa[i];
+            }
+            cmb_timeseries_terminate(&cp);
+            if (!same) {
+                FAIL("copy-differs:after-sort-x", "copy of a value-sorted %d-sample time series differs from the original", n);
+                goto out;
+            }
+            const double med2 = cmb_timeseries_median(&ts);
+            double below = 0, above = 0;
+            for (int i = 0; i < n; i++) {
+                below += ref[i].x < med2 ? ref[i].w : 0;
+                above += ref[i].x > med2 ? ref[i].w : 0;
+            }
+            if (below > 0.5 * wtot + 1e-12 || above > 0.5 * wtot + 1e-12 || med2 < lo || med2 > hi) {
+                char rule[120];
+                snprintf(rule, sizeof rule, "median-not-a-weighted-median:after-sort-x:%s", szclass(n));
+                FAIL(rule, "median of the value-sorted series %g: weight strictly below %g, above %g, total %g", med2, below, above, wtot);
+                goto out;
+            }
+            char *buf = NULL;
+            size_t len = 0;
+            FILE *fp = open_memstream(&buf, &len);
+            cmb_timeseries_fivenum_print(&ts, fp, false);
+            fclose(fp);
+            const bool ok = check_fivenum(buf, lo, hi, "timeseries-after-sort-x");
+            free(buf);
+            if (!ok) {
+                goto out;
+            }
+        }
         cmb_timeseries_sort_t(&ts);
         for (int i = 0; i < n; i++) {
             got[i].x = ts.ds.xa[i];
